@@ -33,6 +33,13 @@ pub struct DomainMirror<F> {
     barycentric_weight: F,
 }
 pub fn domain_new_stub<F: ff::WithSmallOrderMulGroup<3>>(j: u32, k: u32) -> midnight_proofs::poly::EvaluationDomain<F> {
+    // contract of the real `new`: its integer prefix asserts exactly this (h_domain.rs); the callee is
+    // the real `extended_k_for` (hook H11)
+    assert!(k <= F::S, "precondition of EvaluationDomain::new: k <= S");
+    assert!(
+        midnight_proofs::poly::EvaluationDomain::<F>::verif_extended_k_for(j, k) <= F::S,
+        "precondition of EvaluationDomain::new: extended_k <= S"
+    );
     let m = DomainMirror::<F> {
         n: 1u64 << (k & 63),
         k,
